@@ -324,7 +324,9 @@ PROPS = {
         model="Model/Wake.v",
         run_fn="run_wkcase",
         theorems=["C11_no_lost_ring_wakeup", "C11_wake_is_on_its_way", "C11_awoken_bit_makes_next_poll_prompt",
-                  "C11_pending_message_has_a_submitter", "C11_owed_poller_is_resumable_or_a_waker_is_running"],
+                  "C11_pending_message_has_a_submitter", "C11_owed_poller_is_resumable_or_a_waker_is_running",
+                  "C11_interrupted_enter_makes_poll_return", "C11_poll_return_clears_owed",
+                  "C11_eintr_retry_loses_wakeup_refuted"],
         rule="one splitmix64 stream per case: one poller thread calling Ring::poll(None) 1..3 times and 1..3 waker "
              "threads each calling SubmissionQueue::wake 1..2 times, on a ring of the simulated kernel in one of the "
              "three ring modes (default, single issuer, kernel-thread flag) with random 32-bit start counters and a "
@@ -333,8 +335,19 @@ PROPS = {
              "run one at a time under the baton scheduler with a random schedule (preemption probability 5..50% at "
              "every hook-B scheduling point: the PollingState swap / fetch_or, loads of head/tail/flags, submission "
              "lock, slot fill, tail store, CQ head store, try_lock of wake_blocked_futures) and the simulator's "
-             "blocking enter; the executed interleaving (incl. the scheduler's report that the blocked poller can "
-             "never be resumed) is the case and the model replays it step by step; non-trivial = at least one "
+             "blocking enter; in a third of the cases the poller's io_uring_enter is interrupted by a signal (EINTR), "
+             "chosen per poll from the case's stream: not at all (1/5), at the call (2/5: the simulator's "
+             "fail_next_enter = (EINTR, no completions) is armed right before Ring::poll and disarmed afterwards if "
+             "the poll did not enter the kernel; the enter does its submission work and then fails) or while blocked "
+             "(2/5: a block handler parks the poller at the extra scheduling point 997 instead of blocking it, the "
+             "scheduler resumes it at any later moment, and the wait ends with EINTR unless a completion is there by "
+             "then or the call had submitted something); the poller segment that made the failing call (the poller "
+             "entry before that poll's second POLLING_STATE point), resp. the 997 entry, is the model's event PI "
+             "instead of P; the executed interleaving (incl. the scheduler's report that the blocked poller can "
+             "never be resumed) is the case and the model replays it step by step; the oracle (independent of the "
+             "model) follows 'a wake() was called since the last poll returned' along the log and fails when the "
+             "scheduler reports the poller blocked for ever while that holds; tags count the interrupted enters per "
+             "kind, ring mode and whether a wake-up was owed at that moment; non-trivial = at least one "
              "preemption; distinct by the Coq case term",
         assumptions=["API-level reading of the property (DESIGN.md §6 C11): a wake() targets the Ring::poll in "
                      "progress (called, not yet returned) at the wake's fetch_or, else the next one to start; the "
@@ -344,16 +357,27 @@ PROPS = {
                      "own completion when submitted through the ring; the kernel thread consumes what is published)",
                      "sequentially consistent interleaving at hook-B scheduling points; the AcqRel orderings "
                      "themselves are not verified",
-                     "schedules the scheduler can produce: a blocked poller is resumed only when something arrived, "
-                     "'stuck' is reported only when both queues are empty and every waker has finished (ev_ok)",
+                     "schedules the scheduler can produce: a blocked poller is resumed only when something arrived "
+                     "or a signal interrupts it, 'stuck' is reported only when both queues are empty and every waker "
+                     "has finished, a signal may interrupt the poller's enter at any time (ev_ok s PI = True)",
+                     "an interrupted enter: at the call the model follows the simulator's injection (the submission "
+                     "work is done, then EINTR whatever is in the completion queue: more than Linux does, which fails "
+                     "with EINTR only when it would have waited and nothing was submitted); while blocked it follows "
+                     "Linux (success when a completion is there or something had been submitted, EINTR otherwise); "
+                     "only the poller's enter is interrupted (the wakers' enter(0, 0) is submit-only: it never waits, "
+                     "so it cannot be interrupted); signal handlers themselves are not run",
                      "liveness is reduced to safety plus 'a waker inside its call eventually runs': a waker retrying "
                      "after an add that failed on a full queue counts as inside its call; termination of the retry "
                      "loop of Submissions::wake is not claimed",
                      "entries queued by others are abstracted to a count at the front of the queue (they are "
                      "consumed first and post no completion)"],
-        trusted=["simulated kernel harness/src/simk.rs (blocking enter, MSG_RING, SQPOLL consumption)",
+        trusted=["simulated kernel harness/src/simk.rs (blocking enter, MSG_RING, SQPOLL consumption, fail_next_enter, "
+                 "BlockAction::Eintr)",
                  "baton scheduler harness/src/sched.rs (replays are exact: the model reports the scheduling point it "
-                 "expects at every step and it is diffed; blocked/stuck markers)",
+                 "expects at every step and it is diffed; blocked/stuck markers; point 997 = blocked with a signal "
+                 "due)",
+                 "the driver's attribution of a consumed fail_next_enter to the poller segment before the poll's "
+                 "second POLLING_STATE point (a wrong attribution shows as a replay mismatch)",
                  "a10 verif hooks A/B"],
     ),
     "C09": _ops_entry("C09", ["C09_restart_transparent", "C09_final_completion_ends_attempt",
